@@ -61,12 +61,12 @@ PROPS['C04'] = {
 
 PROPS['C16'] = {
     'title': 'Sorted-index iteration is complete and ordered',
-    'modules': ['ColumnVerif.Props.C16'],
+    'modules': ['ColumnVerif.Props.C16', 'ColumnVerif.Props.C16store'],
     'runs': [{'mode': 'store'}],
     'trusted_base': STORE_TB + ["tidwall/btree is trusted to realise an ordered set for the comparator the code passes (the comparator itself is modelled)"],
     'assumptions': [
         "the index follows its string column under the guard 'no op follows a resizing merge on the same offset in one section' (finding D12)",
-        "store-level composition (mainPass + computedPass inside commit) is exercised by the correspondence, the theorems are per section",
+        "store level (Props/C16store): commit_sortInv (SortInv through Store.commit for any target kind and any ops, resizing merges included), commit_inSync / commits_inSync / commits_sorted_reads (the entry of every offset is what the column reads, after any sequence of commits) under NoAppend (merge results keep the delta's length, or no merges) — with a resizing merge only SortInv is proved (D12)",
     ],
     'level_text': "Lean theorems over the executable sorted-index model: the comparator (key, then offset) is a strict total order; SortInv (entries strictly sorted, one entry per offset, consistent back map) holds for a fresh index and is preserved by every op list, back-fill and history; the entry of an offset is decided by the last Put/Delete addressed to it (overwrite, delete, delete-then-reinsert, equal keys coexist); Ascend visits exactly the selected rows with an entry, each once, keys non-decreasing; with the index in sync with its string column (preserved by every section without resizing merges) that is exactly the selected rows holding a value in non-decreasing order of their current values. Tied to the code by differential histories over a small alphabet with the index created before/after the data and arbitrary filter chains, plus a Go-side sort oracle.",
     'technique': 'Lean 4 proof (order axioms, invariant by induction over op lists) + model/implementation correspondence',
@@ -103,30 +103,31 @@ PROPS['C12'] = {
 
 PROPS['C03'] = {
     'title': 'Bitmap indexes always equal their predicate over the current values',
-    'modules': ['ColumnVerif.Props.C03'],
+    'modules': ['ColumnVerif.Props.C03', 'ColumnVerif.Props.C03store'],
     'runs': [{'mode': 'store'}, {'mode': 'sched'}],
     'trusted_base': STORE_TB,
     'assumptions': [
         "IndexInv theorems are for numeric target columns with canonical Put ops (value of the column's width) and merge functions returning non-empty values; string targets follow the same pass but with the D12 guard (no op after a resizing merge) — exercised by the correspondence",
         "the index rule is an arbitrary function of the op the reader shows (type, offset, value)",
-        "store-level registry plumbing (several computed columns per target, findCol/setCol) is exercised by the correspondence, the theorems are per (column, index) pair over mainPass/sections/back-fill",
+        "store level (Props/C03store): commit_computed — a computed column after Store.commit is applyOther over what the main pass shows it (markers, rewritten ops, appended puts), an equality of column records for any computed kind; commit_indexInv / commits_indexInv / history_indexInv: for any history 'create a numeric column, commits…, create the index, commits…' the index bit of an offset is set iff the column reads a value there that satisfies the rule; hypotheses: the index is listed once in its column's computed list (Store.createComputed does not check: a name listed twice sees every section twice), canonical puts, non-empty merge results; string targets: per pass + correspondence",
         "the theorems are sequential; that back-fill and commits to one chunk do not interleave is the chunk latch (C15conc.latch_exclusive) — the back-fill takes it since the repair of D24, which the scheduler scenario index-backfill re-checks on every run",
     ],
-    'level_text': "Lean theorems over the executable index model: the index bit of an offset is the fold of the Put/Delete ops addressed to it (rule on Put, clear on Delete); the main pass rewrites every Merge into a Put of the value stored right after it, so the computed pass hands the rule the merged value; IndexInv (bit ⇔ present ∧ rule(current value)) is preserved by a section pass, by marker sections, by the real commitUpdates order (main pass over all sections, then computed pass) and by the model's mainPass; the back-fill of CreateIndex establishes it for every committed chunk (index created after the data; restore uses the same pass). Tied to the code by differential histories with indexes created/dropped at any point and a Go-side oracle recomputing every index from the values read back; index creation beside a writer of the indexed column is explored by the controlled scheduler (the back-fill is parked between reading a chunk and indexing it through a user-defined hook column; defect D24, repaired).",
+    'level_text': "Lean theorems over the executable index model: the index bit of an offset is the fold of the Put/Delete ops addressed to it (rule on Put, clear on Delete); the main pass rewrites every Merge into a Put of the value stored right after it, so the computed pass hands the rule the merged value; IndexInv (bit ⇔ present ∧ rule(current value)) is preserved by a section pass, by marker sections, by the real commitUpdates order (main pass over all sections, then computed pass) and by the model's mainPass; the back-fill of CreateIndex establishes it for every committed chunk (index created after the data; restore uses the same pass); through the real Store.commit and any sequence of commits and an index creation in between: history_indexInv, commits_index_selects. Tied to the code by differential histories with indexes created/dropped at any point and a Go-side oracle recomputing every index from the values read back; index creation beside a writer of the indexed column is explored by the controlled scheduler (the back-fill is parked between reading a chunk and indexing it through a user-defined hook column; defect D24, repaired).",
     'technique': 'Lean 4 proof (invariant over op lists / sections / back-fill) + model/implementation correspondence',
     'design_ref': '§6 C03',
 }
 
 PROPS['C19'] = {
     'title': 'Triggers fire once per committed change, with the final value',
-    'modules': ['ColumnVerif.Props.C19'],
+    'modules': ['ColumnVerif.Props.C19', 'ColumnVerif.Props.C19store'],
     'runs': [{'mode': 'store'}, {'mode': 'stress'}],
     'trusted_base': STORE_TB,
     'assumptions': [
         "final-value theorem is for numeric columns; for string/record columns a resizing merge is reported after the later ops of the section (finding D12)",
-        "rollback never reaches Apply (Store.rollback touches only the counter); create/drop mid-history is exercised by the correspondence",
+        "rollback never reaches Apply (Store.rollback touches only the counter); create/drop mid-history is exercised by the correspondence; dropping a trigger beside committing writers by the stress witness triggerChurn",
+        "store level (Props/C19store): commit_trigger_events / commits_trigger_events — the call log of a trigger grows, per dirty chunk in ascending order, by the Delete markers and then one Put event with the value stored right after the op for every Put/Merge and one Delete event per Delete; commit_trigger_row_count: exactly once per op and row; needs the trigger to be listed once in the column's computed list",
     ],
-    'level_text': "Lean theorems over the executable trigger model: the trigger is called exactly once per Put/Delete op of the (rewritten) section, in op order, never for Merge/Skip/Insert; per row the calls are the ops addressed to that row in issue order; combined with the rewriting lemma: for every Put or Merge the event carries the value stored right after that op (the merged value), for every Delete one delete event — exactly once each; same through mainPass. Tied to the code by differential histories with triggers created and dropped mid-history, rollbacks, several chunks, and a Go-side event oracle.",
+    'level_text': "Lean theorems over the executable trigger model: the trigger is called exactly once per Put/Delete op of the (rewritten) section, in op order, never for Merge/Skip/Insert; per row the calls are the ops addressed to that row in issue order; combined with the rewriting lemma: for every Put or Merge the event carries the value stored right after that op (the merged value), for every Delete one delete event — exactly once each; same through mainPass and through the real Store.commit for any number of dirty chunks and any sequence of commits. Tied to the code by differential histories with triggers created and dropped mid-history, rollbacks, several chunks, and a Go-side event oracle.",
     'technique': 'Lean 4 proof (event log = image of the rewritten op list) + model/implementation correspondence',
     'design_ref': '§6 C19',
 }
